@@ -964,13 +964,24 @@ fn one_case(s: &Scen, c: &Case, rng: &mut Rng, stranger: Pubkey, risk_admin: Pub
     let mut vault_passed = h.liquidity_vault;
     let mut fake_banks: Vec<Pubkey> = vec![];
     for _ in 0..np {
-        match rng.below(16) {
+        match rng.below(17) {
             0 => {
                 let _ = w.exec(&ix::panic_pause(s.fee_admin));
                 let _ = w.exec(&ix::propagate_fee_state(s.group));
                 if rng.chance(1, 3) {
                     w.advance(*rng.pick(&[1799i64, 1800, 1801]));
                 }
+            }
+            16 => {
+                // the LIVE fee state moves away from the copy the group carries (rates, wallet, a pause nobody propagated yet):
+                // the user instructions read the group's copy
+                let (fs_key, _) = crate::world::fixtures::fee_state_pda();
+                let mut fs = w.fee_state(&fs_key);
+                fs.program_fee_rate = I80F48::from_bits(rng.below(ONE as u64 / 2) as i128).into();
+                fs.program_fee_fixed = I80F48::from_bits(rng.below(ONE as u64 / 10) as i128).into();
+                fs.global_fee_wallet = w.new_key();
+                w.set_fee_state(&fs_key, &fs);
+                if rng.chance(1, 2) { let _ = w.exec(&ix::panic_pause(s.fee_admin)); }
             }
             1 | 2 => {
                 let mut a = w.marginfi_account(&acct_key);
